@@ -1,10 +1,12 @@
 //! One module per property.
 pub mod c01;
 pub mod c02;
+pub mod c03;
 pub mod c04;
 pub mod c05;
 pub mod c09;
 pub mod c11;
+pub mod c12;
 pub mod c13;
 pub mod c13_e2e;
 pub mod dump;
@@ -15,10 +17,12 @@ pub fn run(id: &str, tier: &str) -> Option<i32> {
     let r = match id {
         "C01" => { let r = Report::new(id, tier, "model_checking"); c01::check(&r); r }
         "C02" => { let r = Report::new(id, tier, "model_checking"); c02::check(&r); r }
+        "C03" => { let r = Report::new(id, tier, "model_checking"); c03::check(&r); r }
         "C04" => { let r = Report::new(id, tier, "model_checking"); c04::check(&r); r }
         "C05" => { let r = Report::new(id, tier, "model_checking"); c05::check(&r); r }
         "C09" => { let r = Report::new(id, tier, "model_checking"); c09::check(&r); r }
         "C11" => { let r = Report::new(id, tier, "model_checking"); c11::check(&r); r }
+        "C12" => { let r = Report::new(id, tier, "model_checking"); c12::check(&r); r }
         "C13" => { let r = Report::new(id, tier, "model_checking"); c13::check(&r); r }
         _ => return None,
     };
@@ -29,10 +33,12 @@ pub fn replay(id: &str, path: &str) -> Option<i32> {
     match id {
         "C01" => Some(c01::replay(path)),
         "C02" => Some(c02::replay(path)),
+        "C03" => Some(c03::replay(path)),
         "C04" => Some(c04::replay(path)),
         "C05" => Some(c05::replay(path)),
         "C09" => Some(c09::replay(path)),
         "C11" => Some(c11::replay(path)),
+        "C12" => Some(c12::replay(path)),
         "C13" => Some(c13::replay(path)),
         _ => None,
     }
